@@ -9,8 +9,9 @@ Definition Psim (a : ast) : Prop :=
 
 Ltac sr :=
   first [ assumption
-        | apply srel_clear; sr | apply srel_expand; sr | apply srel_tup_lit; sr
-        | apply srel_last_ret; sr | apply srel_remove_ret; sr | apply srel_assign_none; sr ].
+        | simple apply srel_interface; sr | simple apply srel_def_as_fun_arg; sr
+        | simple apply srel_clear; sr | simple apply srel_expand; sr | simple apply srel_tup_lit; sr
+        | simple apply srel_last_ret; sr | simple apply srel_remove_ret; sr | simple apply srel_assign_none; sr ].
 
 Ltac crel_solve ::=
   repeat match goal with H : Forall2 crel _ _ |- _ => apply map_erase_F2 in H end;
@@ -76,6 +77,40 @@ Lemma is_underscore_crel c1 c0 : crel c1 c0 -> is_underscore c1 = is_underscore 
 Proof.
   intros H. assert (E : forall c, is_underscore (erase c) = is_underscore c) by (destruct c; reflexivity).
   rewrite <- (E c1), <- (E c0), H. reflexivity.
+Qed.
+
+(** the pure tail of the class case *)
+Lemma class_tail name generics stmts1 stmts0 ca1 ca0 ps1 ps0 :
+  Forall2 crel ps1 ps0 -> Forall2 crel ca1 ca0 -> map erase stmts1 = map erase stmts0 ->
+  mrel crel
+    (match assemble_class stmts1 ca1 ps1 with
+     | Some (parent_names, body_stmts) =>
+         t <- lift (tn_to_py (TN false name generics)) ;;
+         match t with
+         | Type_ lit _ => ret (ClassDef (Id lit) parent_names (Block body_stmts))
+         | _ => fail
+         end
+     | None => fail
+     end)
+    (match assemble_class stmts0 ca0 ps0 with
+     | Some (parent_names, body_stmts) =>
+         t <- lift (tn_to_py (TN false name generics)) ;;
+         match t with
+         | Type_ lit _ => ret (ClassDef (Id lit) parent_names (Block body_stmts))
+         | _ => fail
+         end
+     | None => fail
+     end).
+Proof.
+  intros Hps Hca Hst.
+  pose proof (assemble_class_erase stmts1 ca1 ps1) as E1.
+  pose proof (assemble_class_erase stmts0 ca0 ps0) as E0.
+  rewrite Hst, (map_erase_F2 _ _ Hps), (map_erase_F2 _ _ Hca) in E1. rewrite E0 in E1.
+  destruct (assemble_class stmts1 ca1 ps1) as [[pn1 bs1]|], (assemble_class stmts0 ca0 ps0) as [[pn0 bs0]|];
+    cbn [option_map] in E1; try discriminate E1; [|apply mrel_fail].
+  inversion E1 as [[Hpn Hbs]]. cbn [fst snd] in Hpn, Hbs.
+  eapply mrel_bind; [apply mrel_tn|]. intros t1 t0 ->.
+  destruct t0; try apply mrel_fail. apply mrel_ret. unfold crel. cbn [erase]. congruence.
 Qed.
 
 Lemma sim_n : forall n a, size a <= n -> Psim a.
@@ -170,12 +205,15 @@ Proof.
     eapply mrel_bind with (RX := anyrel). { apply mrel_ann. intros i. apply opt_nm_keeps. }
     intros ty1 ty0 _.
     cbn [interface with_last_ret with_assign].
-    pose proof Hs as (Hi1 & Hi0 & _). rewrite Hi1, Hi0. cbn [andb].
+    pose proof Hs as (Hifc & _). rewrite Hifc.
     eapply mrel_bind with (RX := fun d1 d0 : list string * core => fst d1 = fst d0 /\ crel (snd d1) (snd d0)).
-    { destruct body as [b|].
-      - eapply mrel_bind; [apply Hone; [cbn [sizeo] in Hn; lia | sr]|]. intros c1 c0 Hc.
-        apply mrel_ret. split; [reflexivity | exact Hc].
-      - apply mrel_ret. split; reflexivity. }
+    { destruct (interface st0 && match body with Some _ => false | None => true end).
+      - eapply mrel_bind; [apply mrel_touch; intros; apply add_from_irel; assumption|]. intros _ _ _.
+        apply mrel_ret. split; reflexivity.
+      - destruct body as [b|].
+        + eapply mrel_bind; [apply Hone; [cbn [sizeo] in Hn; lia | sr]|]. intros c1 c0 Hc.
+          apply mrel_ret. split; [reflexivity | exact Hc].
+        + apply mrel_ret. split; reflexivity. }
     intros d1 d0 [Hd1 Hd2].
     eapply mrel_bind; [apply Hone; [lia | sr]|]. intros i1 i0 Hi.
     rewrite !id_match. rewrite (id_lit_crel _ _ Hi). destruct (id_lit i0) as [lit|]; [|apply mrel_fail].
@@ -254,6 +292,85 @@ Proof.
     eapply mrel_bind; [apply Hopt; [lia | sr]|]. intros f1 f0 Hf.
     eapply mrel_bind; [apply Hlist; [lia | sr]|]. intros i1 i0 Hi.
     eapply mrel_bind; [apply Hlist; [lia | sr]|]. intros a1 a0 Ha. apply mrel_ret. crel_solve.
+  - (* NClass *)
+    eapply mrel_bind; [apply Hlist; [lia | sr]|]. intros ps1 ps0 Hps.
+    eapply mrel_bind; [apply Hopt; [lia | sr]|]. intros b1 b0 Hb.
+    eapply mrel_bind; [apply Hlist; [lia | sr]|]. intros ca1 ca0 Hca.
+    apply class_tail; try assumption.
+    unfold orel in Hb. destruct b1, b0; cbn [erase_opt] in Hb; try discriminate Hb; [|reflexivity].
+    rewrite <- !block_stmts_erase. congruence.
+  - (* NParent *)
+    eapply mrel_bind; [apply mrel_tn|]. intros t1 t0 ->.
+    destruct args as [|x r]; [apply mrel_ret; reflexivity|].
+    eapply mrel_bind; [apply Hlist; [lia | sr]|]. intros cs1 cs0 Hcs. apply mrel_ret. crel_solve.
+  - (* NTypeDef *)
+    eapply mrel_bind with (RX := Forall2 crel).
+    { destruct isa as [nmi|]; [|apply mrel_ret; constructor].
+      eapply mrel_bind; [apply mrel_nm|]. intros t1 t0 ->. apply mrel_ret. constructor; [reflexivity | constructor]. }
+    intros ps1 ps0 Hps.
+    eapply mrel_bind; [apply Hopt; [lia | sr]|]. intros b1 b0 Hb.
+    assert (Hst : map erase (match b1 with Some x => block_stmts x | None => [] end)
+                  = map erase (match b0 with Some x => block_stmts x | None => [] end)).
+    { unfold orel in Hb. destruct b1, b0; cbn [erase_opt] in Hb; try discriminate Hb; [|reflexivity].
+      rewrite <- !block_stmts_erase. congruence. }
+    pose proof (assemble_class_erase (match b1 with Some x => block_stmts x | None => [] end) [] ps1) as E1.
+    pose proof (assemble_class_erase (match b0 with Some x => block_stmts x | None => [] end) [] ps0) as E0.
+    rewrite Hst, (map_erase_F2 _ _ Hps) in E1. cbn [map] in E1, E0. rewrite E0 in E1.
+    destruct (assemble_class _ [] ps1) as [[pn1 bs1]|], (assemble_class _ [] ps0) as [[pn0 bs0]|];
+      cbn [option_map] in E1; try discriminate E1; [|apply mrel_fail].
+    inversion E1 as [[Hpn Hbs]]. cbn [fst snd] in Hpn, Hbs.
+    eapply mrel_bind with (RX := fun l1 l0 : list core => map erase l1 = map erase l0).
+    { destruct abstract_parent; [apply mrel_ret; symmetry; exact Hpn|].
+      eapply mrel_bind; [apply mrel_touch; intros; apply add_from_irel; assumption|]. intros _ _ _.
+      apply mrel_ret. rewrite !map_app. rewrite Hpn. reflexivity. }
+    intros pn1' pn0' Hpn'.
+    eapply mrel_bind; [apply mrel_tn|]. intros t1 t0 ->.
+    destruct t0; try apply mrel_fail. apply mrel_ret. unfold crel. cbn [erase]. congruence.
+  - (* NTypeAlias *)
+    eapply mrel_bind; [apply mrel_touch; intros; apply add_from_irel; assumption|]. intros _ _ _.
+    eapply mrel_bind; [apply mrel_nm|]. intros t1 t0 ->. apply mrel_ret. reflexivity.
+  - (* NDict *)
+    eapply mrel_bind with
+      (RX := fun l1 l0 : list (core * core) =>
+               map (fun kv => (erase (fst kv), erase (snd kv))) l1 = map (fun kv => (erase (fst kv), erase (snd kv))) l0).
+    { assert (Hd : forall l, sizesp l <= n ->
+                 mrel (fun l1 l0 : list (core * core) =>
+                         map (fun kv => (erase (fst kv), erase (snd kv))) l1
+                         = map (fun kv => (erase (fst kv), erase (snd kv))) l0)
+                      (mmap (fun kv => ck <- conv (fst kv) (with_last_ret (with_assign st1 None) false) ;;
+                                       cv <- conv (snd kv) (with_last_ret (with_assign st1 None) false) ;; ret (ck, cv)) l)
+                      (mmap (fun kv => ck <- conv (fst kv) (with_last_ret (with_assign st0 None) false) ;;
+                                       cv <- conv (snd kv) (with_last_ret (with_assign st0 None) false) ;; ret (ck, cv)) l)).
+      { induction l as [|kv l IHl]; intros Hl; cbn [mmap]; [apply mrel_ret; reflexivity|]. cbn [sizesp] in Hl.
+        eapply mrel_bind with (RX := fun p1 p0 : core * core => crel (fst p1) (fst p0) /\ crel (snd p1) (snd p0)).
+        { eapply mrel_bind; [apply Hone; [lia | sr]|]. intros k1 k0 Hk.
+          eapply mrel_bind; [apply Hone; [lia | sr]|]. intros v1 v0 Hv. apply mrel_ret. split; assumption. }
+        intros p1 p0 [Hp1 Hp2]. eapply mrel_bind; [apply IHl; lia|]. intros r1 r0 Hr.
+        apply mrel_ret. cbn [map]. unfold crel in *. rewrite Hp1, Hp2, Hr. reflexivity. }
+      apply Hd. lia. }
+    intros l1 l0 Hl. apply mrel_ret. unfold crel. cbn [erase]. rewrite Hl. reflexivity.
+  - (* NListBuilder *)
+    eapply mrel_bind; [apply Hone; [lia | sr]|]. intros e1 e0 He.
+    destruct conds as [|col rest]; [apply mrel_fail|]. cbn [sizes] in Hn.
+    eapply mrel_bind; [apply Hlist; [lia | sr]|]. intros cs1 cs0 Hcs.
+    eapply mrel_bind; [apply Hone; [lia | sr]|]. intros cc1 cc0 Hcc. apply mrel_ret. crel_solve.
+  - (* NSetBuilder *)
+    eapply mrel_bind; [apply Hone; [lia | sr]|]. intros e1 e0 He.
+    destruct conds as [|col rest]; [apply mrel_fail|]. cbn [sizes] in Hn.
+    eapply mrel_bind; [apply Hlist; [lia | sr]|]. intros cs1 cs0 Hcs.
+    eapply mrel_bind; [apply Hone; [lia | sr]|]. intros cc1 cc0 Hcc. apply mrel_ret. crel_solve.
+  - (* NDictBuilder *)
+    eapply mrel_bind; [apply Hone; [lia | sr]|]. intros f1 f0 Hf.
+    eapply mrel_bind; [apply Hone; [lia | sr]|]. intros t1 t0 Ht.
+    destruct conds as [|col rest]; [apply mrel_fail|]. cbn [sizes] in Hn.
+    eapply mrel_bind; [apply Hlist; [lia | sr]|]. intros cs1 cs0 Hcs.
+    eapply mrel_bind; [apply Hone; [lia | sr]|]. intros cc1 cc0 Hcc. apply mrel_ret. crel_solve.
+  - (* NWith *)
+    eapply mrel_bind; [apply Hone; [lia | sr]|]. intros r1 r0 Hr.
+    destruct alias as [al|]; cbn [sizeo] in Hn.
+    + eapply mrel_bind; [apply Hone; [lia | sr]|]. intros a1 a0 Ha.
+      eapply mrel_bind; [apply Hone; [lia | sr]|]. intros b1 b0 Hb. apply mrel_ret. crel_solve.
+    + eapply mrel_bind; [apply Hone; [lia | sr]|]. intros b1 b0 Hb. apply mrel_ret. crel_solve.
 Qed.
 
 Theorem sim a : Psim a.
@@ -275,7 +392,7 @@ Proof.
   pose proof (sim a (state0 true) (state0 false) srel0 imports0 imports0 (irel_refl _)) as H.
   destruct (conv a (state0 true) imports0) as [[c1 j1]|], (conv a (state0 false) imports0) as [[c0 j0]|];
     try contradiction; [|exact I].
-  destruct H as [Hc [H1 H2]]. repeat split; assumption.
+  destruct H as [Hc [H1 H2]]. repeat split; try assumption. rewrite !from_imps_nontyping, H2. reflexivity.
 Qed.
 
 Definition is_typing_import (c : core) : bool :=
